@@ -1465,7 +1465,15 @@ impl Engine for CapiEngine {
                 },
             };
             let foreign = matches!(op, Op::FromForeign { .. });
+            let appended = matches!(op, Op::Append { .. });
             push(&mut rng, op, &mut calls);
+            if appended && rng.chance(1, 2) {
+                // serialize what was just made, both ways
+                push(&mut rng, Op::SerializeSealed { t: 1000 }, &mut calls);
+                if rng.chance(1, 2) {
+                    push(&mut rng, Op::Serialize { t: 1000 }, &mut calls);
+                }
+            }
             if foreign {
                 // look at what was loaded, and ask a verifier about it
                 push(&mut rng, Op::Print { t: 1000 }, &mut calls);
